@@ -37,7 +37,8 @@ class Contract:
         self.file = file
         self.qualname = qualname
         self.name = qualname.split(".")[-1]
-        self.source = kw.get("source", qualname)  # the function whose source is verified (several contracts may share one)
+        self.source = kw.get("source", qualname)
+        self.immutable = kw.get("immutable", [])  # parameters whose object the function must not modify in place  # the function whose source is verified (several contracts may share one)
         self.params = kw.get("params", {})
         self.defaults = kw.get("defaults", {})
         self.free = kw.get("free", {})
@@ -359,6 +360,8 @@ class Engine(ExprMixin, CallMixin):
     def assign(self, tgt, v, st, stmt):
         if isinstance(tgt, ast.Name):
             self.rebind(st, tgt.id)
+            if not self.in_ghost:
+                st.rebound.add(tgt.id)
             lt = self.local_type(tgt.id, st)
             if lt is not None and isinstance(v, SV) and v.ty != lt:
                 v = self.coerce(v, lt, st, stmt)
@@ -390,6 +393,7 @@ class Engine(ExprMixin, CallMixin):
                 raise Unsupported("assignment into a temporary")
             base = self.read_path(st, *lv)
             vv = self.deref(st, v)
+            self.note_mutation(st, lv[0], stmt)
             if isinstance(base.ty, T.Rec) and isinstance(tgt.slice, ast.Constant):
                 self.write_path(st, lv[0], lv[1] + [("field", tgt.slice.value)], vv, stmt)
                 return
@@ -406,6 +410,7 @@ class Engine(ExprMixin, CallMixin):
             lv = self.lvalue(tgt.value, st)
             if lv is None:
                 raise Unsupported("attribute assignment on a temporary")
+            self.note_mutation(st, lv[0], stmt)
             self.write_path(st, lv[0], lv[1] + [("field", tgt.attr)], self.deref(st, v), stmt)
             return
         raise Unsupported(f"assignment target {type(tgt).__name__}")
@@ -448,6 +453,7 @@ class Engine(ExprMixin, CallMixin):
             if not isinstance(base.ty, T.Map):
                 raise Unsupported("del on non-dict")
             k = self.ev(tgt.slice, st, base.ty.key)
+            self.note_mutation(st, lv[0], stmt)
             self.check(st, z3.Select(base.ty.dom(base.t), k.t), "KeyError(del)", stmt)
             new = base.ty.mk(z3.Store(base.ty.dom(base.t), k.t, False), base.ty.valarr(base.t))
             self.write_path(st, lv[0], lv[1], SV(new, base.ty), stmt)
@@ -482,16 +488,38 @@ class Engine(ExprMixin, CallMixin):
         c = self.truthy(self.ev(stmt.test, st))
         outs = self.drain_raises([])
         c = z3.simplify(c)
+        narrow = self.isinstance_narrowing(stmt.test, st)
         for branch, cond, tag in ((stmt.body, c, "T"), (stmt.orelse, z3.Not(c), "F")):
             if z3.is_false(z3.simplify(cond)):
                 continue
             s2 = st.copy()
             s2.assume(cond)
+            if tag == "T" and narrow is not None:
+                s2.env[narrow[0]] = narrow[1]  # flow typing: the same object, seen at its dynamic type
             s2.trail.append(f"L{stmt.lineno}:{tag}")
             if not z3.is_true(z3.simplify(cond)) and not self.feasible(s2):
                 continue
             outs.extend(self.exec_block(branch, s2))
         return outs
+
+    def isinstance_narrowing(self, test, st):
+        """`if isinstance(x, C):` on a union-typed variable whose alternative for C is unique -> (name, projected value)."""
+        if not (isinstance(test, ast.Call) and isinstance(test.func, ast.Name) and test.func.id == "isinstance" and len(test.args) == 2
+                and isinstance(test.args[0], ast.Name)):
+            return None
+        name = test.args[0].id
+        v = st.env.get(name)
+        if not (isinstance(v, SV) and isinstance(v.ty, T.Union)):
+            return None
+        cls = test.args[1]
+        names = [ast.unparse(e) for e in cls.elts] if isinstance(cls, ast.Tuple) else [ast.unparse(cls)]
+        tags = []
+        for n in names:
+            tags += v.ty.classes.get(n, [])
+        tags = list(dict.fromkeys(tags))
+        if len(tags) != 1:
+            return None
+        return name, SV(v.ty.proj(tags[0], v.t), v.ty.alts[tags[0]])
 
     def st_FunctionDef(self, stmt, st):
         # closures are verified separately under their own contract; calls go through it
